@@ -14,6 +14,8 @@ Decided clauses:
         between; inc / dec and logical instructions do not qualify.
   R14.5 carry-chain continuity: in the byte loops of sodium_increment / add / sub the loop-carried carry
         is recomputed from its previous value (data dependence of the next carry on the incoming one).
+  R14.8 limb structure of every assembly block of sodium/utils.c: only the first limb operation ignores the carry, every limb
+        is updated once, and under `len == C` the limb widths add up to exactly C.
   R14.7 limb pairing in the same fast paths: every `op %reg, K(out)` uses a register loaded by `mov K(in), %reg` from the other
         operand at the same offset and width, each loaded limb is consumed once, and the limbs are contiguous from offset 0.
 NOT decided: the -1/0/1 value of sodium_compare, the values of the carries of increment/add/sub (and
@@ -149,6 +151,96 @@ def verify_rules(prog, chk, tag=""):
     return n
 
 
+def _dominating_length(f, b):
+    """constant C such that block b is only reached with `param == C` (the true edge of an `icmp eq param, C` branch of a
+    dominator); None when there is no such fact"""
+    x = b
+    while x not in (-1, None):
+        d = f.blocks[x].get("idom", -1)
+        if d in (-1, None):
+            return None
+        term = f.insts[f.blocks[d]["insts"][-1]]
+        if term["op"] == "br" and term.get("cond") and term["cond"][0] == "v" and term["succ"][0] == x and term["succ"][1] != x \
+                and f.blocks[x].get("preds") == [d]:
+            c = f.insts[term["cond"][1]]
+            if c["op"] == "icmp" and c.get("pred") == "eq":
+                a, k = c["ops"]
+                if a[0] == "i":
+                    a, k = k, a
+                if a[0] == "a" and k[0] == "i":
+                    return (f.params[a[1]]["name"], k[1])
+        x = d
+    return None
+
+
+def asm_limb_rule(prog, chk, rule, parts=("carry", "once", "extent"), floor=True):
+    """Limb structure of every inline-assembly block of sodium/utils.c (helpers included). Over the instructions with a memory
+    destination `op src, K(base)` / `inc K(base)`:
+      carry   a carry-ignoring operation (add / sub / inc / dec) may only be the first of them: a second one in the chain
+              overwrites CF with the carry of a partial sum and drops the one the previous operation produced;
+      once    no limb K(base) is the destination of two arithmetic operations of one block;
+      extent  when the block is only reached under `len == C`, the limb widths are contiguous from 0 and add up to exactly C
+              (wider: bytes past the buffer are read and written; narrower: the top bytes never receive the carry)."""
+    import re
+    width = {"q": 8, "l": 4, "w": 2, "b": 1}
+    nblk = next_ = 0
+    for f in prog.functions():
+        if f.decl or f.unit != "sodium/utils.c":
+            continue
+        for i, ins in enumerate(f.insts):
+            cal = ins.get("callee")
+            if ins["op"] != "call" or not cal or cal[0] != "asm":
+                continue
+            ops = []
+            for line in [l.strip() for l in cal[1].replace(";", "\n").split("\n") if l.strip()]:
+                m = re.match(r"(\w+)\s+(?:([^,]+?)\s*,\s*)?(-?\d*)\((\$\d+)\)$", line)
+                if not m:
+                    continue
+                mn = m.group(1).lower()
+                if mn[:3] not in ("add", "adc", "sub", "sbb", "inc", "dec") or (m.group(2) is None and mn[:3] not in ("inc", "dec")):
+                    continue
+                ops.append((mn, int(m.group(3) or 0), width.get(mn[-1], 0), m.group(4), line))
+            if not ops:
+                continue
+            nblk += 1
+            if "carry" in parts:
+                late = [o for o in ops[1:] if o[0][:3] in ("add", "sub", "inc", "dec")]
+                chk.ob(rule, f, "assembly block at %s: only the first limb operation ignores the incoming carry" % f.loc(i), not late, loc=f.loc(i),
+                       detail="" if not late else "`%s` comes after `%s` and %s: the carry / borrow of the earlier operation is lost whenever "
+                       "the two do not both produce one" % (late[0][4], ops[0][4], "leaves CF alone" if late[0][0][:3] in ("inc", "dec") else
+                                                            "overwrites CF with the carry of its own partial result"),
+                       key="%s %s carry-first@%d" % (rule, f.sname, ops[-1][1] + ops[-1][2]))
+            if "once" in parts:
+                seen, dup = set(), []
+                for o in ops:
+                    if (o[3], o[1]) in seen:
+                        dup.append(o[4])
+                    seen.add((o[3], o[1]))
+                chk.ob(rule, f, "assembly block at %s: every limb is the destination of one arithmetic operation" % f.loc(i), not dup, loc=f.loc(i),
+                       detail="" if not dup else "`%s` updates a limb that an earlier operation of the block already updated: the two "
+                       "operations each produce their own carry and only the second one is propagated" % dup[0],
+                       key="%s %s once@%d" % (rule, f.sname, ops[-1][1] + ops[-1][2]))
+            if "extent" in parts:
+                fact = _dominating_length(f, ins["b"])
+                if fact is None:
+                    continue
+                next_ += 1
+                limbs = sorted({(o[1], o[2]) for o in ops})
+                contiguous = limbs[0][0] == 0 and all(limbs[j][0] + limbs[j][1] == limbs[j + 1][0] for j in range(len(limbs) - 1))
+                total = limbs[-1][0] + limbs[-1][1]
+                ok = contiguous and total == fact[1] and all(w for _k, w in limbs)
+                chk.ob(rule, f, "assembly block at %s, reached only with %s == %d: its limbs cover exactly bytes [0, %d)" % (f.loc(i), fact[0], fact[1], fact[1]),
+                       ok, loc=f.loc(i), detail="" if ok else "limbs (offset, width) %s cover bytes [0, %d)%s: %s" %
+                       (limbs, total, "" if contiguous else " with gaps",
+                        "%d bytes past the %d-byte buffer are read and written" % (total - fact[1], fact[1]) if total > fact[1]
+                        else "the carry never reaches the remaining bytes"),
+                       key="%s %s extent-%d" % (rule, f.sname, fact[1]))
+    if floor:
+        chk.floor(rule, "inline-assembly blocks of sodium/utils.c with limb operations", nblk, 0 if chk.relaxed else 6)
+        if "extent" in parts:
+            chk.floor(rule, "assembly blocks guarded by a length equality", next_, 0 if chk.relaxed else 6)
+
+
 def run(ctx, chk):
     prog = ctx.prog()
     chk.configs.append("native -O0+mem2reg; -O2 (no unroll/vectorise/inline) for scalar evolution")
@@ -265,10 +357,10 @@ def run(ctx, chk):
     # path's length fact without gaps. A register loaded from the wrong buffer or offset gives a + a or mixes limbs.
     import re
     npair = 0
-    for name in ("sodium_add", "sodium_sub"):
-        f = prog.fn(name)
-        if f is None:
-            continue
+    for f in sorted((g for g in prog.functions() if not g.decl and g.unit == "sodium/utils.c"), key=lambda g: g.name):
+        name = f.sname
+        if len(f.params) < 2 or f.params[0]["ty"] != "i8*" or f.params[1]["ty"] != "i8*":
+            continue                       # (the two-operand helpers: sodium_add, sodium_sub and whatever they delegate to)
         for i, ins in enumerate(f.insts):
             cal = ins.get("callee")
             if ins["op"] != "call" or not cal or cal[0] != "asm" or len(cal) < 3:
@@ -308,3 +400,5 @@ def run(ctx, chk):
                    not bad and contiguous, loc=f.loc(i), detail="; ".join(bad) or ("" if contiguous else "limbs %s leave a gap" % limbs),
                    key="R14.7 %s asm-%d" % (name, limbs[-1][0] + limbs[-1][1]))
     chk.floor("R14.7", "limb operations in the assembly fast paths of sodium_add / sodium_sub", npair, 0 if chk.relaxed else 10)
+    # ---- R14.8 limb structure of every assembly block of the unit (helpers included) -----------------------------------------
+    asm_limb_rule(prog, chk, "R14.8")
